@@ -42,7 +42,9 @@ struct Case {
   int topo;           // topology used for polyhedra without a requirement
   bool failed;        // a violation was reported: stop
   unsigned long created, deleted;
-  Case() : dim(0), topo(1), failed(false), created(0), deleted(0) {}
+  bool cleaned;
+  Case() : dim(0), topo(1), failed(false), created(0), deleted(0), cleaned(false) {}
+  ~Case();            // releases whatever is left when a case is abandoned by an exception
 };
 int add_obj(Case& c, void* h, int type, bool owned, int owner);
 bool release_obj(Case& c, int idx);     // ppl_delete_<type>; false on failure (violation reported)
